@@ -304,6 +304,16 @@ def run(prog, ctx):
             else:
                 res.violate("C09.N", "C09.N|%s|unpaired-write" % f.id, "%s can change the bit array and return without updating num_bits_set" % f.id, f.id)
     res.rule("C09.W", n_w, 3, "mutable uses of the bit array paired with a count update")
+    # a filter decoded from an image must carry the count of the bits it actually holds (C13.O: nothing is derived from the bit
+    # array before the loop that fills it)
+    try:
+        from . import C13
+        r13 = C13.run(prog, dict(ctx))
+        for v in r13.violations:
+            if v.rule == "C13.O" and "bloom" in v.key:
+                res.violate("C09.N", "C09.N|" + v.key, "after deserialization: " + v.message, getattr(v, "fn", None), getattr(v, "span", None))
+    except Exception as ex:
+        res.extra.setdefault("undecided_items", []).append("C09.N could not run C13.O: %r" % (ex,))
     inv = C.pub_fn(prog, B, "invert")
     if inv is not None:
         s = Sym(prog, inv)
